@@ -5,7 +5,8 @@ preserved. usage: tools/seed_matrix.py [seed-id ...]"""
 import concurrent.futures as cf
 import glob, json, os, shutil, subprocess, sys, tempfile, time
 
-V = "/verif"
+V = os.path.dirname(os.path.dirname(os.path.abspath(__file__)))
+R = os.environ.get("VERIF_REPO", "/repo")
 PROPS = ["C%02d" % i for i in range(1, 21)]
 
 
@@ -34,7 +35,7 @@ def main():
     seeds = sorted(d for d in os.listdir(V + "/seeded") if os.path.exists(V + "/seeded/" + d + "/meta.json"))
     if len(sys.argv) > 1:
         seeds = [s for s in seeds if s in sys.argv[1:]]
-    if sh("git -C /repo diff --quiet").returncode != 0:
+    if sh("git -C %s diff --quiet" % R).returncode != 0:
         print("/repo dirty"); sys.exit(2)
     evbak = tempfile.mkdtemp()
     shutil.copytree(V + "/evidence", evbak, dirs_exist_ok=True)
@@ -42,13 +43,13 @@ def main():
     try:
         for s in seeds:
             patch = "%s/seeded/%s/patch.diff" % (V, s)
-            if sh("git -C /repo apply " + patch).returncode != 0:
+            if sh("git -C %s apply %s" % (R, patch)).returncode != 0:
                 print("cannot apply", s); continue
             try:
                 with cf.ThreadPoolExecutor(max_workers=5) as ex:
                     res = list(ex.map(run_check, PROPS))
             finally:
-                sh("git -C /repo checkout -- . && git -C /repo clean -fdq -- .")
+                sh("git -C %s checkout -- . && git -C %s clean -fdq -- ." % (R, R))
             meta_p = "%s/seeded/%s/meta.json" % (V, s)
             meta = json.load(open(meta_p))
             meta["detected_by"] = {p: {"verdict": k, "what": d} for p, k, d, _ in res if k != "ok"}
